@@ -197,7 +197,7 @@ func runC12(e *core.Env) {
 		if r.Chance(1, 10) {
 			today = obs.DSTDates[r.Intn(len(obs.DSTDates))]
 		}
-		o := gen.Opts{MaxRecs: 12, MinRecs: 1, MaxEntries: 4, OpenRanges: 1, Tags: 1, Near: &today, NearSpread: r.PickInt(2, 8, 40, 200, 900), Hostile: r.Chance(1, 5), MaxHours: 12}
+		o := gen.Opts{MaxRecs: 12, MinRecs: 1, MaxEntries: 4, OpenRanges: 1, Tags: 1, Near: &today, NearSpread: r.PickInt(2, 8, 40, 200, 900), Hostile: r.Chance(1, 5), MaxHours: 12, LookAlikes: r.Chance(1, 2), TrailingBlank: r.Chance(1, 3)}
 		d := gen.Document(r, o)
 		switch core.Hash64("c12-size", fmt.Sprint(e.Seed, i)) % 300 {
 		case 0: // more than a thousand records behind the generated ones
